@@ -381,6 +381,7 @@ def run(ctx):
         per[name] = {"states": distinct, "transitions": generated, "tlc_s": wall}
 
     div = 0
+    machinery = []
     replayed = steps_exec = distinct = 0
     samples = []
     extras = {}
@@ -392,9 +393,8 @@ def run(ctx):
             if "crash" in res2:
                 raise MachineryError("harness %s crashed twice:\n%s" % (k, res2["crash"]))
             res = res2
-        mach = [m for m in res.get("mismatches", []) if m["class"] == "MACHINERY"]
-        if mach:
-            raise MachineryError("harness %s: %s" % (k, mach[0]["what"]))
+        machinery += ["harness %s: %s" % (k, m["what"]) for m in res.get("mismatches", []) if m["class"] == "MACHINERY"]
+        res["mismatches"] = [m for m in res.get("mismatches", []) if m["class"] != "MACHINERY"]
         div += classify_mismatches(ctx, res, k)
         replayed += res["replayed"]
         steps_exec += res["steps"]
@@ -403,16 +403,24 @@ def run(ctx):
         extras[k] = dict(res.get("extra") or {}, walks=res["replayed"], steps=res["steps"], distinct=res["distinct"])
         if res["replayed"] == 0 and not res.get("mismatches"):
             raise MachineryError("harness %s replayed nothing" % k)
-    # vacuity: the real lengths must have reached the boundaries, every fault kind must have been applied
-    if not ctx.violations:
+    if machinery and not ctx.violations:
+        # (with a violation at hand a harness that could not go on is a consequence, not a machinery problem)
+        raise MachineryError(machinery[0])
+    # vacuity: every fault kind must have been applied to real sessions and every walk step executed (walks are
+    # cut short only after a violation or a noted divergence)
+    if not ctx.violations and not div:
         nz = extras["noise"]
         for kind in ("flip", "fliplen", "drop", "dup", "swap", "cut", "cuteof", "trunc"):
             if not nz.get("faults_" + kind):
                 raise MachineryError("no %s fault was applied to a real Noise session" % kind)
         if not nz.get("noise_real_handshakes"):
             raise MachineryError("no real Noise handshake was run")
-        if steps_exec < walk_steps:
-            raise MachineryError("replay executed %d steps for %d walk steps" % (steps_exec, walk_steps))
+        chan_steps = sum(v["steps"] for k, v in per.items() if k.startswith("chan_"))
+        if nz["steps"] < rounds * chan_steps:
+            raise MachineryError("Noise replay executed %d steps for %d channel walk steps" % (nz["steps"], rounds * chan_steps))
+        for k in ("psk", "sampled", "lazy"):
+            if extras[k]["steps"] < per[k + "_a"]["steps"]:
+                raise MachineryError("%s replay executed %d steps for %d walk steps" % (k, extras[k]["steps"], per[k + "_a"]["steps"]))
     log("C02: %d states, %d transitions generated, %d replay transitions, %d walks; executed %d walks / %d steps"
         % (states, trans, edges_total, n_walks, replayed, steps_exec))
     cov = evidence.mc_coverage(
